@@ -90,6 +90,10 @@ def inlinable(fn: ast.FunctionDef) -> bool:
         return False
     if fn.decorator_list and not (len(fn.decorator_list) == 1 and _is_static(fn)):
         return False
+    body0 = [s for s in fn.body if not (isinstance(s, ast.Expr) and isinstance(s.value, ast.Constant) and isinstance(s.value.value, str))]
+    if len(body0) == 2 and isinstance(body0[0], ast.FunctionDef) and isinstance(body0[1], ast.Return) and isinstance(body0[1].value, ast.Name) \
+            and body0[1].value.id == body0[0].name and not fn.decorator_list:
+        return True          # closure factory: put back as a lambda by _as_expression
     for n in ast.walk(fn):
         if isinstance(n, (ast.Yield, ast.YieldFrom, ast.Await, ast.Global, ast.Nonlocal)):
             return False
@@ -166,6 +170,8 @@ def expand(fn: ast.FunctionDef, call: ast.Call, is_method: bool, make):
 def _stage(tree, fn, call, is_method: bool, k: int):
     """how the call `call` (somewhere in `tree`) is replaced by the body of fn: (statement list, statement, new statements, (call, value) or None)"""
     site = _find_site(tree, call)
+    if site is not None and not is_method and _closure_factory(fn, call) is not None:
+        site = None
     if site is None:
         # inside a comprehension / lambda / conditional operand: a helper that is ONE expression (`return E`) can still be put back - the call is
         # replaced by E with the arguments in the parameters' places (each argument a plain path, or its parameter read exactly once)
@@ -213,8 +219,30 @@ def _stage(tree, fn, call, is_method: bool, k: int):
     return (lst, st, new + [st], (call, holder["v"]))
 
 
+def _closure_factory(fn, call):
+    """def f(p): def g(x): return E; return g      called as f(A)   ==   lambda x, p=A: E     (p bound when the factory is called)"""
+    body = [s_ for s_ in fn.body if not (isinstance(s_, ast.Expr) and isinstance(s_.value, ast.Constant))]
+    if not (len(body) == 2 and isinstance(body[0], ast.FunctionDef) and isinstance(body[1], ast.Return) and isinstance(body[1].value, ast.Name)
+            and body[1].value.id == body[0].name):
+        return None
+    g = body[0]
+    gb = [s_ for s_ in g.body if not (isinstance(s_, ast.Expr) and isinstance(s_.value, ast.Constant))]
+    if g.decorator_list or g.args.vararg or g.args.kwarg or g.args.kwonlyargs or g.args.posonlyargs or g.args.defaults \
+            or len(gb) != 1 or not isinstance(gb[0], ast.Return) or gb[0].value is None:
+        return None
+    params = [a.arg for a in fn.args.args]
+    if fn.args.vararg or fn.args.kwarg or fn.args.kwonlyargs or fn.args.defaults or call.keywords or len(call.args) != len(params) \
+            or set(params) & {a.arg for a in g.args.args}:
+        return None
+    largs = ast.arguments(posonlyargs=[], args=[ast.arg(arg=a.arg) for a in g.args.args] + [ast.arg(arg=p_) for p_ in params],
+                          vararg=None, kwonlyargs=[], kw_defaults=[], kwarg=None, defaults=[copy.deepcopy(a) for a in call.args])
+    return ast.Lambda(args=largs, body=copy.deepcopy(gb[0].value))
+
+
 def _as_expression(fn, call, is_method: bool):
     body = [s_ for s_ in fn.body if not (isinstance(s_, ast.Expr) and isinstance(s_.value, ast.Constant))]
+    if not is_method and len(body) == 2:
+        return _closure_factory(fn, call)
     if len(body) != 1 or not isinstance(body[0], ast.Return) or body[0].value is None:
         return None
     params = [a.arg for a in fn.args.args]
@@ -524,6 +552,67 @@ def _unfold_comprehension(tree, call) -> bool:
                         lst[i:i + 1] = [init, loop, st]
                         return True
     return False
+
+
+def undo_cross_module_expression_helpers(modules: Dict[str, ast.Module], known_quals: set, log: List[str]):
+    """A module-level function of module M that the reference does not know, that is ONE expression (or a closure factory), and that is only ever
+    called from other modules as `<alias of M>.f(..)`: the expression is put back at every call, names of M's own top level written as
+    `<alias>.<name>`."""
+    for mname, tree in modules.items():
+        top = set()
+        for st in tree.body:
+            if isinstance(st, (ast.FunctionDef, ast.AsyncFunctionDef, ast.ClassDef)):
+                top.add(st.name)
+            elif isinstance(st, ast.Assign):
+                top.update(n.id for t in st.targets for n in ast.walk(t) if isinstance(n, ast.Name))
+            elif isinstance(st, ast.AnnAssign) and isinstance(st.target, ast.Name):
+                top.add(st.target.id)
+        for fn in [st for st in tree.body if isinstance(st, ast.FunctionDef) and f"{mname}.{st.name}" not in known_quals]:
+            if not inlinable(fn) or fn.name.startswith("__"):
+                continue
+            refs, calls = 0, []
+            for m2, t2 in modules.items():
+                # how m2 refers to module M
+                aliases = set()
+                for n in ast.walk(t2):
+                    if isinstance(n, ast.Import):
+                        aliases.update(a.asname for a in n.names if a.name == mname and a.asname)
+                    elif isinstance(n, ast.ImportFrom) and n.module and n.level == 0:
+                        aliases.update((a.asname or a.name) for a in n.names if f"{n.module}.{a.name}" == mname)
+                        refs += sum(1 for a in n.names if n.module == mname and a.name == fn.name) * 100     # imported by name: not handled
+                for n in ast.walk(t2):
+                    if (isinstance(n, ast.Name) and n.id == fn.name and t2 is not tree) or (isinstance(n, ast.Attribute) and n.attr == fn.name):
+                        refs += 1
+                    if t2 is tree and isinstance(n, ast.Name) and n.id == fn.name:
+                        refs += 1
+                    if isinstance(n, ast.Call) and isinstance(n.func, ast.Attribute) and n.func.attr == fn.name and isinstance(n.func.value, ast.Name) \
+                            and n.func.value.id in aliases:
+                        calls.append((t2, n, n.func.value.id))
+            if not calls or refs != len(calls) or len(calls) > 12:
+                continue
+            staged = []
+            for t2, c, alias in calls:
+                e = _as_expression(fn, c, False)
+                if e is None:
+                    staged = None
+                    break
+                bound = {a.arg for l in ast.walk(e) if isinstance(l, ast.Lambda) for a in l.args.args} | {a.arg for a in fn.args.args}
+
+                class Qual(ast.NodeTransformer):
+                    def visit_Name(self, n):
+                        if isinstance(n.ctx, ast.Load) and n.id in top and n.id not in bound:
+                            return ast.copy_location(ast.Attribute(value=ast.Name(id=alias, ctx=ast.Load()), attr=n.id, ctx=ast.Load()), n)
+                        return n
+                # only the body refers to M's names; the substituted arguments belong to the caller's module and are left as they are
+                if isinstance(e, ast.Lambda):
+                    e.body = Qual().visit(e.body)
+                staged.append((t2, c, e))
+            if not staged:
+                continue
+            for t2, c, e in staged:
+                _replace_node(t2, c, ast.fix_missing_locations(ast.copy_location(e, c)))
+            tree.body.remove(fn)
+            log.append(f"{mname}.{fn.name} (expression helper used from other modules) put back at its {len(calls)} call site(s)")
 
 
 def _find_site(tree, call):
